@@ -2,6 +2,7 @@ package main
 
 import (
 	"go/token"
+	"go/types"
 
 	"golang.org/x/tools/go/ssa"
 )
@@ -75,6 +76,11 @@ func runProbeWrap(rc *RuleCtx) {
 					break
 				}
 				if ph == wrapPhi {
+					continue
+				}
+				// only a POINTER (or uintptr address) is a slot pointer; a plain integer that counts the probes
+				// (`for i := 0; i < N; i++`) advances linearly by design
+				if bt, ok := ph.Type().Underlying().(*types.Basic); ok && bt.Kind() != types.UnsafePointer && bt.Kind() != types.Uintptr {
 					continue
 				}
 				for _, e := range ph.Edges {
